@@ -21,13 +21,13 @@ CRATE = "harness-vec"
 
 # universe name -> (depth, one case in n for the quick tier, description)
 UNIVERSES = {
-    "v0": (2, 3, "prefixes of length <= 1: <=3 ROAs x <=3 announcements"),
-    "v2": (2, 8, "depth 2: <=2 ROAs x <=2 announcements"),
-    "v1": (2, 40, "depth 2: <=3 ROAs x <=1 announcement"),
-    "v3": (3, 30, "depth 3: <=2 ROAs x <=1 announcement"),
-    "t": (4, 20, "depth 4: <=4 announcements of one origin x {no ROA, "
+    "v0": (2, 5, "prefixes of length <= 1: <=3 ROAs x <=3 announcements"),
+    "v2": (2, 12, "depth 2: <=2 ROAs x <=2 announcements"),
+    "v1": (2, 60, "depth 2: <=3 ROAs x <=1 announcement"),
+    "v3": (3, 45, "depth 3: <=2 ROAs x <=1 announcement"),
+    "t": (4, 30, "depth 4: <=4 announcements of one origin x {no ROA, "
                  "root ROA with max length 3} (prefix tree shapes)"),
-    "t2": (3, 3, "depth 3: <=3 announcements of two origins x {no ROA, "
+    "t2": (3, 4, "depth 3: <=3 announcements of two origins x {no ROA, "
                  "root ROA with max length 2}"),
 }
 # many single-worker TLC processes run side by side: keep each JVM small
@@ -81,9 +81,10 @@ def run_shards(chk, name, depth, cases, restr, emb=None):
     restr_path = os.path.join(work, "restrictions.json")
     with open(restr_path, "w") as f:
         json.dump(restr, f)
-    nshards = max(1, (len(cases) + CHUNK - 1) // CHUNK)
-    if len(cases) > 64:
-        nshards = max(nshards, min(vlib.NCPU, 16))
+    # every shard costs a TLC start-up later: at least 2500 cases each,
+    # at most CHUNK
+    nshards = max(1, (len(cases) + CHUNK - 1) // CHUNK,
+                  min(vlib.NCPU, 16, len(cases) // 2500))
     jobs = []
     for i in range(nshards):
         part = cases[i::nshards]
